@@ -423,6 +423,81 @@ def rule_eigen_wrapper(chk):
                detail_ok='d[i] = 0, V[i][j] = (i == j)')
 
 
+def rule_backsub_pivot(chk):
+    """back substitution: a row is left alone (no division) only when its pivot is exactly zero - any other pivot, however small, belongs to a
+    regular system and is divided by (the forward sweep never screens the last pivot)"""
+    from verif_static import norm as N
+    t = M.py(LA)
+    fn = M.find_func(t, 'gj_solve')
+    M.set_parents(fn)
+    n_ = 0
+    for iff in [i for i in ast.walk(fn) if isinstance(i, ast.If)]:
+        # the if whose one side divides by the tested entry and whose other side does not
+        def divs(stmts):
+            return [d for st in stmts for d in ast.walk(st) if isinstance(d, ast.BinOp) and isinstance(d.op, ast.Div)]
+        db, do = divs(iff.body), divs(iff.orelse)
+        if bool(db) == bool(do):
+            continue
+        denoms = set(U(d.right) for d in (db or do))
+        tested = [U(x) for x in ast.walk(iff.test) if isinstance(x, ast.Subscript)]
+        if not (set(tested) & denoms):
+            continue
+        piv = sorted(set(tested) & denoms)[0]
+        n_ += 1
+        if do:      # `if pivot == 0: <no division> else: <divide>`
+            ok = N.same(iff.test, '%s == 0' % piv)
+        else:       # `if pivot != 0: <divide>`
+            ok = N.same(iff.test, '%s != 0' % piv)
+        chk.decide(ok, 'gj-zero-pivot-guard', 'back-substitution:exact-zero', node=iff, file=LA, func='gj_solve',
+                   detail_bad='back substitution skips the division when `%s`: a pivot that is tiny but not zero (badly scaled regular systems; the last pivot is never screened by the '
+                              'forward sweep) is then treated as singular or silently left unsolved' % U(iff.test), detail_ok='division skipped only for %s == 0' % piv)
+    chk.floor('back-substitution pivot tests', n_, 1)
+
+
+def rule_hypot(chk):
+    """hypot2(x, y) (used by tql2): result**2 == x**2 + y**2 - for generic arguments as one identity over all branches, and on the ties |x| == |y|, y == 0, x == 0 that
+    comparisons between |x| and |y| single out (a branch meant for `both zero` must not swallow x == y != 0)"""
+    from verif_static import symb as S
+    rel = 'pysph/base/linalg3.pyx'
+    t = M.cy(rel)
+    fns = [f for f in ast.walk(t) if isinstance(f, ast.FunctionDef) and f.name == 'hypot2']
+    if not fns:
+        raise AnalysisError('hypot2 vanished from linalg3.pyx')
+    fn = fns[0]
+    cases = (('generic', None), ('tie y=x', {'y': 'x'}), ('tie y=-x', {'y': '-x'}), ('y=0', {'y': '0.0'}), ('x=0', {'x': '0.0'}))
+    for label, sub in cases:
+        try:
+            ctx = S.Ctx(seconds=15)
+            body = list(M.docstring_stripped(fn.body))
+            if sub:
+                pre = [ast.parse('%s = %s' % (k, v)).body[0] for k, v in sub.items()]
+                body = pre + body
+            f2 = ast.FunctionDef(name='hypot2', args=fn.args, body=body, decorator_list=[])
+            ev = S.Evaluator(ctx, f2)
+            ev.run()
+            r = ev.result_of_returns(lambda val, env: val)
+            x, y = ctx.var('x'), ctx.var('y')
+            if sub:
+                if 'y' in sub:
+                    y = {'x': x, '-x': -x, '0.0': S.Poly.const(0)}[sub['y']]
+                else:
+                    x = S.Poly.const(0)
+            want = ctx.mul(x, x) + ctx.mul(y, y)
+            res = ctx.simplify(ctx.mul(r, r) - want)
+            ok, res2 = (True, res) if res.is_zero() else ctx.prove_zero(res)
+            if ok:
+                chk.holds('hypot-identity', label, node=fn, file=rel, func='hypot2', detail='hypot2(x, y)**2 == x**2 + y**2 (%s)' % label)
+                continue
+            w = ctx.witness(res, want + S.Poly.const(1))
+            if w is not None:
+                chk.violated('hypot-identity', label, node=fn, file=rel, func='hypot2',
+                             detail='hypot2(x, y)**2 != x**2 + y**2 for %s, e.g. at %s: tql2 divides by this value' % (label, ', '.join('%s=%.3g' % kv for kv in sorted(w[0].items()))))
+            else:
+                chk.undecided('hypot-identity', label, node=fn, file=rel, func='hypot2', detail='identity neither proved nor refuted (residual %d terms)' % len(res2.t))
+        except (S.Unsupported, S.Budget) as e:
+            chk.undecided('hypot-identity', label, node=fn, file=rel, func='hypot2', detail=str(e))
+
+
 def main(chk):
     chk.explanation = ('Affine access signatures (E7) of the five helpers compared with definitional forms kept in '
                        'fixtures/linalg_ref.py (other counter names and loop orders); structural rules for gj_solve: the arg-max '
@@ -433,6 +508,8 @@ def main(chk):
     rule_gj(chk)
     rule_returns(chk)
     rule_eigen_wrapper(chk)
+    rule_backsub_pivot(chk)
+    rule_hypot(chk)
     chk.unit('functions', list(HELPERS) + ['gj_solve'])
     if not any(o.verdict == 'VIOLATED' for o in chk.obs):
         chk.floor('obligations', len(chk.obs), 14)
